@@ -68,10 +68,34 @@ macro_rules! ta3_log {
     })
 }
 
+#[cfg(not(feature = "verif"))]
 macro_rules! exit_log {
     ($pos:expr, $($arg:tt)+) => ({
         log!(Level::Error, "at {:>10} - {}", $pos, format_args!($($arg)+));
         process::exit(1)
+    })
+}
+
+// Verification hook (feature `verif` only): a rejection unwinds with a
+// `VerifExit` payload instead of terminating the process, so that an
+// in-process harness can observe it with `catch_unwind`.
+#[cfg(feature = "verif")]
+#[derive(Debug)]
+pub struct VerifExit {
+    pub pos: usize,
+    pub msg: String,
+}
+
+#[cfg(feature = "verif")]
+macro_rules! exit_log {
+    ($pos:expr, $($arg:tt)+) => ({
+        log!(Level::Error, "at {:>10} - {}", $pos, format_args!($($arg)+));
+        // (keeps `process` used under the feature)
+        let _ = process::id;
+        std::panic::panic_any(VerifExit {
+            pos: $pos as usize,
+            msg: format!($($arg)+),
+        })
     })
 }
 
